@@ -319,6 +319,89 @@ theorem C03_ge_dense [AddMonoid α] [One α] [LinearOrder α] (A : Sparse α) (h
       ∀ i, InBounds A.shape i → R.get i = if D.get i ≤ A.get i then 1 else 0 :=
   ge_dense_spec A hA D hD hs h1
 
+/-! ### sparse results are well-formed: one value per stored subscript, subscripts inside the shape and
+pairwise distinct, no stored zero (also part of every theorem above) -/
+
+/-- the sparse result of `add` is well-formed and has the operands' shape. -/
+theorem C03_result_wf_add [Ring α] [DecidableEq α] (A B : Sparse α) (hA : A.WF) (hB : B.WF) (hs : A.shape = B.shape) (hN : A.shape ≠ []) :
+    ∃ R, add A (.sparse B) = .ok (.sp R) ∧ R.WF ∧ R.shape = A.shape := by
+  obtain ⟨R, e, w, sh, _⟩ := add_sparse_spec A B hA hB hs hN
+  exact ⟨R, e, w, sh⟩
+
+/-- the sparse result of `sub` is well-formed and has the operands' shape. -/
+theorem C03_result_wf_sub [Ring α] [DecidableEq α] (A B : Sparse α) (hA : A.WF) (hB : B.WF) (hs : A.shape = B.shape) (hN : A.shape ≠ []) :
+    ∃ R, sub A (.sparse B) = .ok (.sp R) ∧ R.WF ∧ R.shape = A.shape := by
+  obtain ⟨R, e, w, sh, _⟩ := sub_sparse_spec A B hA hB hs hN
+  exact ⟨R, e, w, sh⟩
+
+/-- the sparse result of `mul` is well-formed and has the operands' shape. -/
+theorem C03_result_wf_mul [Semiring α] [NoZeroDivisors α] [DecidableEq α] (A B : Sparse α) (hA : A.WF) (hB : B.WF) (hs : A.shape = B.shape) :
+    ∃ R, mul A (.sparse B) = .ok R ∧ R.WF ∧ R.shape = A.shape := by
+  obtain ⟨R, e, w, sh, _⟩ := mul_sparse_spec A B hA hB hs
+  exact ⟨R, e, w, sh⟩
+
+/-- the sparse result of `and` is well-formed and has the operands' shape. -/
+theorem C03_result_wf_and [AddMonoid α] [One α] [DecidableEq α] (A B : Sparse α) (hA : A.WF) (hB : B.WF) (hs : A.shape = B.shape) (hN : A.shape ≠ []) (hpos : ∀ e ∈ A.shape, 0 < e) (h1 : (1 : α) ≠ 0) :
+    ∃ R, logicalAnd A (.sparse B) = .ok R ∧ R.WF ∧ R.shape = A.shape := by
+  obtain ⟨R, e, w, sh, _⟩ := and_sparse_spec A B hA hB hs hN hpos h1
+  exact ⟨R, e, w, sh⟩
+
+/-- the sparse result of `or` is well-formed and has the operands' shape. -/
+theorem C03_result_wf_or [AddMonoid α] [One α] [DecidableEq α] (A B : Sparse α) (hA : A.WF) (hB : B.WF) (hs : A.shape = B.shape) (hN : A.shape ≠ []) (hpos : ∀ e ∈ A.shape, 0 < e) (h1 : (1 : α) ≠ 0) :
+    ∃ R, logicalOr A (.sparse B) = .ok (.sp R) ∧ R.WF ∧ R.shape = A.shape := by
+  obtain ⟨R, e, w, sh, _⟩ := or_sparse_spec A B hA hB hs hN hpos h1
+  exact ⟨R, e, w, sh⟩
+
+/-- the sparse result of `xor` is well-formed and has the operands' shape. -/
+theorem C03_result_wf_xor [AddMonoid α] [One α] [DecidableEq α] (A B : Sparse α) (hA : A.WF) (hB : B.WF) (hs : A.shape = B.shape) (hN : A.shape ≠ []) (hpos : ∀ e ∈ A.shape, 0 < e) (h1 : (1 : α) ≠ 0) :
+    ∃ R, logicalXor A (.sparse B) = .ok (.sp R) ∧ R.WF ∧ R.shape = A.shape := by
+  obtain ⟨R, e, w, sh, _⟩ := xor_sparse_spec A B hA hB hs hN hpos h1
+  exact ⟨R, e, w, sh⟩
+
+/-- the sparse result of `eq` is well-formed and has the operands' shape. -/
+theorem C03_result_wf_eq [AddMonoid α] [One α] [DecidableEq α] (A B : Sparse α) (hA : A.WF) (hB : B.WF) (hs : A.shape = B.shape) (h1 : (1 : α) ≠ 0) :
+    ∃ R, SpElem.eq A (.sparse B) = .ok R ∧ R.WF ∧ R.shape = A.shape := by
+  obtain ⟨R, e, w, sh, _⟩ := eq_sparse_spec A B hA hB hs h1
+  exact ⟨R, e, w, sh⟩
+
+/-- the sparse result of `ne` is well-formed and has the operands' shape. -/
+theorem C03_result_wf_ne [AddMonoid α] [One α] [DecidableEq α] (A B : Sparse α) (hA : A.WF) (hB : B.WF) (hs : A.shape = B.shape) (h1 : (1 : α) ≠ 0) :
+    ∃ R, SpElem.ne A (.sparse B) = .ok R ∧ R.WF ∧ R.shape = A.shape := by
+  obtain ⟨R, e, w, sh, _⟩ := ne_sparse_spec A B hA hB hs h1
+  exact ⟨R, e, w, sh⟩
+
+/-- the sparse result of `lt` is well-formed and has the operands' shape. -/
+theorem C03_result_wf_lt [AddMonoid α] [One α] [LinearOrder α] (A B : Sparse α) (hA : A.WF) (hB : B.WF) (hs : A.shape = B.shape) (h1 : (1 : α) ≠ 0) :
+    ∃ R, SpElem.lt A (.sparse B) = .ok R ∧ R.WF ∧ R.shape = A.shape := by
+  obtain ⟨R, e, w, sh, _⟩ := lt_sparse_spec A B hA hB hs h1
+  exact ⟨R, e, w, sh⟩
+
+/-- the sparse result of `le` is well-formed and has the operands' shape. -/
+theorem C03_result_wf_le [AddMonoid α] [One α] [LinearOrder α] (A B : Sparse α) (hA : A.WF) (hB : B.WF) (hs : A.shape = B.shape) (h1 : (1 : α) ≠ 0) :
+    ∃ R, SpElem.le A (.sparse B) = .ok R ∧ R.WF ∧ R.shape = A.shape := by
+  obtain ⟨R, e, w, sh, _⟩ := le_sparse_spec A B hA hB hs h1
+  exact ⟨R, e, w, sh⟩
+
+/-- the sparse result of `gt` is well-formed and has the operands' shape. -/
+theorem C03_result_wf_gt [AddMonoid α] [One α] [LinearOrder α] (A B : Sparse α) (hA : A.WF) (hB : B.WF) (hs : A.shape = B.shape) (h1 : (1 : α) ≠ 0) :
+    ∃ R, SpElem.gt A (.sparse B) = .ok R ∧ R.WF ∧ R.shape = A.shape := by
+  obtain ⟨R, e, w, sh, _⟩ := gt_sparse_spec A B hA hB hs h1
+  exact ⟨R, e, w, sh⟩
+
+/-- the sparse result of `ge` is well-formed and has the operands' shape. -/
+theorem C03_result_wf_ge [AddMonoid α] [One α] [LinearOrder α] (A B : Sparse α) (hA : A.WF) (hB : B.WF) (hs : A.shape = B.shape) (h1 : (1 : α) ≠ 0) :
+    ∃ R, SpElem.ge A (.sparse B) = .ok R ∧ R.WF ∧ R.shape = A.shape := by
+  obtain ⟨R, e, w, sh, _⟩ := ge_sparse_spec A B hA hB hs h1
+  exact ⟨R, e, w, sh⟩
+
+/-- the sparse result of `/` at the extended rationals is well-formed: the stored `nan` and
+`±inf` are not zeros, and `0/y = 0` is not stored. -/
+theorem C03_result_wf_div (A B : Sparse XRat) (hA : A.WF) (hB : B.WF) (hs : A.shape = B.shape)
+    (hfa : ∀ x ∈ A.vals, ∃ q : Rat, x = .fin q) (hfb : ∀ y ∈ B.vals, ∃ q : Rat, y = .fin q) :
+    ∃ R, div .nan A (.sparse B) = .ok R ∧ R.WF ∧ R.shape = A.shape := by
+  obtain ⟨R, e, w, sh, _⟩ := div_sparse_xrat A B hA hB hs hfa hfb
+  exact ⟨R, e, w, sh⟩
+
 /-! ### look-ups -/
 
 /-- `S.extract(q)` returns the entries at the requested subscripts (0 where nothing is stored). -/
